@@ -131,6 +131,7 @@ scenario Main():
     precondition: boom("topguard")
     setup:
         require monitor M()
+        terminate after 14 steps     # never reached by one run: reached early if elapsed time survived a run
         record boom("record", 1) as r
         record simulation().currentTime to "rb.pickle"
         require boom("requirement")
